@@ -236,7 +236,13 @@ func c11Err(err error) string {
 		return "ok"
 	}
 	o := lib.Observe(err)
-	return fmt.Sprintf("error(code=%d pos=%d type=%s)", o.Code, o.Pos, o.ErrType)
+	// a position is relative to a source: the file the error names belongs to the result
+	file := ""
+	var f interface{ Filename() string }
+	if errors.As(err, &f) {
+		file = f.Filename()
+	}
+	return fmt.Sprintf("error(code=%d pos=%d file=%q type=%s)", o.Code, o.Pos, file, o.ErrType)
 }
 
 func c11ErrText(err error) func() string {
